@@ -6,6 +6,7 @@ mod fam_feat;
 mod fam_geom;
 mod fam_kf;
 mod fam_nms;
+mod fam_py;
 mod fam_smetric;
 mod fam_store;
 mod fam_trk;
@@ -22,6 +23,7 @@ pub struct Ctx {
     pub constr: similari::trackers::spatio_temporal_constraints::SpatioTemporalConstraints,
     pub store: fam_store::StoreCtx,
     pub trk: fam_trk::TrkSlots,
+    pub py: fam_py::PyCtx,
 }
 
 fn exec(ctx: &mut Ctx, line: &str) -> String {
@@ -44,6 +46,7 @@ fn exec(ctx: &mut Ctx, line: &str) -> String {
         "smetric" => fam_smetric::exec(ctx, &mut t),
         "geom" => fam_geom::exec_geom(ctx, &mut t),
         "own" => fam_geom::exec_own(ctx, &mut t),
+        "py" => fam_py::exec(ctx, &mut t),
         _ => format!("UNKNOWN-FAMILY {fam}"),
     }
 }
